@@ -54,7 +54,7 @@ r = sh(demo_cmd, timeout=900)
 log.append("demo with patch: rc=%d (expect != 0)" % r.returncode)
 if r.returncode == 0:
     ok = False
-sh("git checkout -- .")
+sh("git apply -R %s/patch.diff" % src)      # (also removes files the patch added)
 r = sh(demo_cmd, timeout=900)
 log.append("demo without patch: rc=%d (expect 0)" % r.returncode)
 if r.returncode != 0:
